@@ -7,7 +7,7 @@ from bounded import geo, gen, repl
 
 
 def check(spec):
-    case = repl.planted(spec['cell'], spec['pair'], spec['copies'], spec['seed'], near_miss=spec.get('near_miss', 0), atol=spec.get('atol', 0.05), noise=spec.get('noise', 0.0))
+    case = repl.planted(spec['cell'], spec['pair'], spec['copies'], spec['seed'], near_miss=spec.get('near_miss', 0), atol=spec.get('atol', 0.05), noise=spec.get('noise', 0.0), unwrapped=spec.get('unwrapped', False))
     sp, rp = repl.patterns(spec['pair'], with_terms=spec.get('extras', False), extras=spec.get('extras', False), relabel=spec.get('relabel', False))
     S = case['structure']
     cell = case['cell']
@@ -82,7 +82,7 @@ REPLAY = {'replace': replay}
 def specs(tier, seed):
     out = []
     cells = list(geo.CELLS)
-    pairs = ['shrink-shared', 'grow-shared', 'swap-element', 'empty', 'disjoint', 'identical', 'single-swap', 'sym-grow', 'collinear-swap', 'nudge-swap', 'grow-interleaved']
+    pairs = ['shrink-shared', 'grow-shared', 'swap-element', 'empty', 'disjoint', 'identical', 'single-swap', 'sym-grow', 'collinear-swap', 'nudge-swap', 'grow-interleaved', 'to-single-offset']
     for pi, pair in enumerate(pairs):
         for ci, cell in enumerate(cells):
             if tier == 'quick' and (pi + ci) % 2:
@@ -104,6 +104,9 @@ def specs(tier, seed):
     for pi, pair in enumerate(['swap-element', 'grow-shared', 'shrink-shared', 'disjoint']):
         for atol in (0.01, 0.02, 0.1):
             out.append(dict(cell=cells[(pi + 1) % len(cells)], pair=pair, copies=2, seed=seed * 100 + 60 + pi, f=1.0, replace_all=False, rng=pi, near_miss=1, atol=atol))
+    # copies stored whole across the cell boundary (atoms outside the box): they are found, replaced, and the input is left as it was
+    for pi, pair in enumerate(['swap-element', 'grow-shared', 'shrink-shared', 'disjoint']):
+        out.append(dict(cell=cells[(pi + 1) % len(cells)], pair=pair, copies=3, seed=seed * 100 + 30 + pi, f=1.0, replace_all=bool(pi % 2), rng=pi, unwrapped=True))
     # progress printing switched on
     for pi, pair in enumerate(['swap-element', 'grow-shared', 'shrink-shared', 'empty']):
         out.append(dict(cell=cells[pi % len(cells)], pair=pair, copies=3, seed=seed * 100 + 40 + pi, f=1.0 if pi % 2 else 0.5, replace_all=False, rng=pi, verbose=True))
